@@ -240,7 +240,7 @@ fn cfg_strategy(pr: &Profile) -> BoxedStrategy<NodeCfg> {
         None => any::<bool>().boxed(),
     };
     let enc = match pr.encryption {
-        Some(true) => Just(1u8).boxed(),
+        Some(true) => prop_oneof![12 => Just(1u8), 1 => Just(3u8)].boxed(),
         Some(false) => Just(0u8).boxed(),
         None => prop_oneof![Just(0u8), Just(1u8)].boxed(),
     };
@@ -284,6 +284,7 @@ fn cfg_strategy(pr: &Profile) -> BoxedStrategy<NodeCfg> {
                 http: false,
                 jwt_never_expire: false,
                 rt_workers: 2,
+                dedup_ids_never_expire: dedup && (thr + seg as u32) % 3 == 0,
             }
         })
         .boxed()
@@ -369,7 +370,7 @@ fn op_strategy(pr: &Profile) -> BoxedStrategy<POp> {
         (pr.w_maintain, Just(POp::Maintain).boxed()),
         (pr.w_update, (expiry_sel(pr.expiry), size_sel(pr.size_limit)).prop_map(|(expiry, max_size)| POp::UpdateTopic { expiry, max_size }).boxed()),
         (pr.w_parts, prop_oneof![4 => (1u8..4).prop_map(POp::AddPartitions), 4 => (1u8..4).prop_map(POp::DelPartitions), 1 => (1u8..=3).prop_map(POp::ReplaceParts)].boxed()),
-        (pr.w_restart_key, (0u8..3).prop_map(POp::RestartKey).boxed()),
+        (pr.w_restart_key, (0u8..4).prop_map(POp::RestartKey).boxed()),
     ];
     let v: Vec<_> = v.into_iter().filter(|(w, _)| *w > 0).collect();
     proptest::strategy::Union::new_weighted(v).boxed()
